@@ -119,6 +119,9 @@ func c05HyDrivers() []*icCfg {
 	return []*icCfg{
 		{Name: "HY1-delete-vs-worker", O: o, Hy: slow, Pre: queued, Scripts: [][]icOp{{D(1)}, {H(2)}}, Post: []icOp{W, Z, T(3), W, Z}},
 		{Name: "HY1p-delete-vs-worker-pool", O: op, Fresh: true, Hy: slow, Pre: queued, Scripts: [][]icOp{{D(1)}, {H(2)}}, Post: []icOp{W, Z, T(3), W, Z, D(3), W, Z}},
+		// the secondary store refuses the Delete (scripted): the call fails and both tiers stay as they were - or, if
+		// the entry does leave memory, that is reported
+		{Name: "HY3-failed-secondary-delete", O: hOpts{MaxSize: 2, ChanSize: 4, BufSize: 2}, Hy: &hyIcCfg{Workers: 1, Prob: 1, Faults: "D1"}, Pre: []icOp{T(1), T(2), W, Z}, Scripts: [][]icOp{{D(1)}, {H(2)}}, Post: []icOp{W, Z}},
 		{Name: "HY2p-delete-set-vs-worker-pool", O: op, Fresh: true, Hy: slow, Pre: queued, Scripts: [][]icOp{{D(1), T(3)}}, Post: []icOp{W, Z, D(3), W, Z}},
 	}
 }
